@@ -66,14 +66,7 @@ FORBIDDEN = re.compile(
 
 # Axioms of the Coq standard library that a theorem may depend on (each is named in the trusted base
 # whenever Print Assumptions reports it).  Anything else is a lint failure.
-ALLOWED_AXIOMS = {
-    "Coq.Logic.FunctionalExtensionality.functional_extensionality_dep",
-    "functional_extensionality_dep",
-    "Coq.Logic.ProofIrrelevance.proof_irrelevance",
-    "Coq.Logic.Classical_Prop.classic",
-    "Coq.Logic.Eqdep.Eq_rect_eq.eq_rect_eq",
-    "Coq.Logic.JMeq.JMeq_eq",
-}
+ALLOWED_AXIOMS = set()   # the development uses none (DESIGN.md section 3): any axiom reported by Print Assumptions fails the audit
 
 
 
